@@ -171,6 +171,53 @@ func (c *ctx) nests() {
 	}
 }
 
+// quoteCost (round E, review C17-5): every '>' of a line is a token of its own and opens one more
+// nested quote decoder; scan, Style and Quote recurse along that chain for every token, so
+// the work for a line of n markers grows with n*n.  The small depths are compared with the
+// model (whose table of level visits is C17_quote_depth_cost_partial; the visits are a function
+// of the events compared here) and the sum is demanded of the real decoder; one deep line
+// (thorough tier, last thing of the run because a decoder that does not finish keeps its
+// goroutine busy) is decoded under the watchdog.
+func (c *ctx) quoteCost() {
+	r := c.r
+	for _, n := range []int{1, 2, 3, 4, 8, 16, 32, 64} {
+		doc := []byte(strings.Repeat(">", n) + " a\n")
+		c.nestCase(doc, stdScheds[:3], 3, "quote-cost")
+		res := decode(doc, sched{})
+		if res.panic != "" || res.hung {
+			continue
+		}
+		visits := 0
+		for _, e := range res.evs {
+			visits += int(e.quote) + 1
+		}
+		if want := (n*n + 5*n + 2) / 2; visits != want {
+			r.Fail("well-bracketed", "quote-depths", []string{fmt.Sprintf("%s dec %s - 0", r.Prop, common.Hex(doc))},
+				fmt.Sprintf("%d block quote markers: the quote depths of the tokens plus one sum to %d, want %d (depths 1..n, the text at depth n)", n, visits, want))
+		}
+	}
+}
+
+// deepQuote: one line of n block quote markers under the watchdog.
+func (c *ctx) deepQuote(n int) {
+	r := c.r
+	if c.hung {
+		return
+	}
+	doc := []byte(strings.Repeat(">", n) + " a\n")
+	res := decode(doc, sched{})
+	r.Case(fmt.Sprintf("deep-quote %d", n), true, "deep-quote")
+	line := fmt.Sprintf("%s longdec %s %d %s - 0 -", r.Prop, common.HexS(strings.Repeat(">", n)), 0, common.HexS(" a\n"))
+	switch {
+	case res.hung:
+		c.hung = true
+		r.Fail("terminates", "quote-depth-cost", []string{line, fmt.Sprintf("#a line of %d '>' followed by \" a\\n\"", n)},
+			fmt.Sprintf("a line of %d block quote markers (%d bytes) was not decoded within 20s: the work grows with the square of the quote depth", n, len(doc)))
+	case res.panic != "":
+		r.Fail("no-panic", "deep-quote", []string{line}, "decoder panicked on a line of block quote markers: "+res.panic)
+	}
+}
+
 func quoteLine(depth int, body string) string {
 	if depth == 0 {
 		return body + "\n"
